@@ -428,10 +428,39 @@ def r06_4_5(ctx: Ctx) -> None:
     ok = any(isinstance(s, ast.Expr) and txt(s.value) == f"{txt(swept)}.sort()" and cfg.dominates(cfg.n(s), cfg.n(loop))
              for s in func.body) or (isinstance(swept, ast.Call) and call_name(swept) == "sorted")
     ctx.ob("R06.5", REC, func, qual, "areas sorted", ok, "the sweep runs over the areas in sorted order", form="")
-    wraps = [n for n in walk_local(func) if isinstance(n, ast.If) and isinstance(n.test, ast.Call) and call_name(n.test) == "locations_overlap"
-             and "first_location" in txt(n.test) and "last_location" in txt(n.test)]
+    # the closing step of the ring: an overlap test between the first and the last section of the swept list
+    section_list = next((txt(c.func.value) for c in calls(func) if last_attr(c) == "append" and isinstance(c.func, ast.Attribute)
+                         and enclosing_loops(c, stop=func) and any(lp is loop for lp in enclosing_loops(c, stop=func))), "sections")
+    end_of = {}
+    for node in walk_local(func):
+        if isinstance(node, ast.Assign) and isinstance(node.value, ast.Subscript) and txt(node.value.value) == section_list \
+                and txt(node.value.slice) in ("0", "-1"):
+            for target in node.targets:
+                for name in [n.id for n in ast.walk(target) if isinstance(n, ast.Name)]:
+                    end_of[name] = txt(node.value.slice)
+    wraps = []
+    for call in calls(func):
+        if call_name(call) != "locations_overlap" and last_attr(call) != "overlaps_with":
+            continue
+        if any(call is c for c in calls(loop)):
+            continue
+        ends = set()
+        for node in ast.walk(call):
+            if isinstance(node, ast.Name) and node.id in end_of:
+                ends.add(end_of[node.id])
+            if isinstance(node, ast.Subscript) and txt(node.value) == section_list and txt(node.slice) in ("0", "-1"):
+                ends.add(txt(node.slice))
+        if ends == {"0", "-1"}:
+            wraps.append(call)
     ctx.ob("R06.5", REC, wraps[0] if wraps else func, qual, "first/last merge", bool(wraps),
-           "the first and last sections are merged when they overlap (across the origin)", form=txt(wraps[0].test) if wraps else "")
+           "the first and last sections are merged when they overlap (across the origin)", form=txt(wraps[0]) if wraps else "")
+    repeated = bool(wraps) and any(isinstance(a, ast.While) for a in _ancestors(wraps[0]))
+    ctx.ob("R06.5", REC, wraps[0] if wraps else func, qual, "first/last merge repeated", repeated,
+           "after the first section has absorbed the last one it is compared with the new last section, until they no longer "
+           "overlap: the section that crosses the origin sorts first and can reach several of the sections that sort last",
+           detail="" if repeated else "a single test: subregions join{[900:1000),[0:100)}, [700:800), [780:920), [950:980) on a ring of "
+           "1000 give the sections X, [700:920), [950:980); X absorbs [950:980) but is never compared with [700:920), and adding "
+           "the two overlapping regions raises 'regions cannot overlap'", form="")
     # finalisation of the last section is unconditional
     finals = [c for c in calls(func) if txt(c.func) == "sections.append" and not enclosing_loops(c, stop=func)]
     ok = len(finals) == 1 and cfg.postdominates(cfg.n(finals[0]), cfg.n(loop))
